@@ -4,6 +4,8 @@ import Dashu.Proofs.Cross.Counter
 import Dashu.Proofs.Cross.Spec
 import Dashu.Proofs.Cross.HashProofs
 import Dashu.Proofs.Cross.HashWeak
+import Dashu.Proofs.Cross.HashInf
+import Dashu.Proofs.Cross.Mersenne
 /-
   C14 — Cross-type numeric comparison and hashing agree with exact values.
 
@@ -199,6 +201,47 @@ theorem num_hash_value {x y : Num} (hx : x.HashOK) (hy : y.HashOK) {n1 n2 : Int}
     numHashFeed x = numHashFeed y :=
   numHash_value hx hy vx vy h
 
+/-- NumHash at the infinities: `FBig ±∞` (any base) and an infinite f32/f64 — which `num_eq` each
+    other — feed the same `i128` (both 0: num-order's INF constants are mapped to 0 by
+    `i128::num_hash`, a zero significand hashes to 0) -/
+theorem num_hash_inf (B : Nat) (e : Int) (p : Nat) (t : FloatTy) (bits : Nat) {neg : Bool}
+    (h : decode t bits = .inf neg) :
+    numHashFeed (.fbig B 0 e p) = numHashFeed (.pfloat t bits) :=
+  numHash_inf B e p t bits h
+
+-- ------------------------------------------------------------------ FixedMersenneInt<127,1> mirrored
+
+/-- num-modular `FixedMersenne::<127,1>::reduce_single` (fold loop + conditional subtraction) is
+    reduction modulo `2^127 - 1`, for every input -/
+theorem mersenne_reduce_single (v : Nat) : Mersenne.reduceSingle v = v % M127 := reduceSingle_eq v
+
+/-- `reduce_double` with its TWO unrolled folds is reduction modulo `2^127 - 1` on every product of
+    two residues (`v < 2^254`): the carry after the second fold is 0 and no `u128` sum overflows
+    (`reduceDouble_no_overflow`) -/
+theorem mersenne_reduce_double {v : Nat} (hv : v < 2 ^ 254) : Mersenne.reduceDouble v = v % M127 :=
+  reduceDouble_eq hv
+
+/-- `Reducer::mul`, `Reducer::pow` (binary exponentiation with the `1`/`2` shortcuts),
+    `Reducer::inv` (extended Euclid `u128::invm`) on residues -/
+theorem mersenne_mul {a b : Nat} (ha : a < M127) (hb : b < M127) : Mersenne.mul a b = a * b % M127 :=
+  mul_eq ha hb
+theorem mersenne_pow {b : Nat} (hb : b < M127) (e : Nat) : Mersenne.pow b e = b ^ e % M127 :=
+  pow_eq hb e
+theorem mersenne_inv {a : Nat} (ha : a < M127) (h0 : a ≠ 0) :
+    Mersenne.inv a = some (invMod a) ∧ a * invMod a % M127 = 1 :=
+  ⟨inv_eq ha h0, invMod_spec (by rw [Nat.mod_eq_of_lt ha]; exact h0)⟩
+
+/-- what the driver executes (`numHashFeedM`: every `FixedMersenneInt` operation mirrored, `none` =
+    an `unwrap()` on a missing inverse) never panics and equals the arithmetic description … -/
+theorem num_hash_mirrored {x : Num} (hx : x.HashOK) : numHashFeedM x = some (numHashFeed x) :=
+  numHashFeedM_eq hx
+
+/-- … hence the hash clause holds for the mirrored code: equal values feed the same `i128` -/
+theorem num_hash_value_mirrored {x y : Num} (hx : x.HashOK) (hy : y.HashOK) {n1 n2 : Int}
+    {d1 d2 : Nat} (vx : x.value = .fin n1 d1) (vy : y.value = .fin n2 d2) (h : n1 * d2 = n2 * d1) :
+    numHashFeedM x = numHashFeedM y ∧ (numHashFeedM x).isSome :=
+  numHashM_value hx hy vx vy h
+
 /-- the feed is the canonical hash of the exact value `n/d` (`hashQ`: `±(|n| mod M)·(d mod M)⁻¹`)
     whenever the stored denominator is a unit mod `M` … -/
 theorem hash_is_function_of_value {x : Num} (hx : x.HashOKPre) {n : Int} {d : Nat}
@@ -240,6 +283,84 @@ example : numHashFeed (.fbig 10 25 (-1) 2) = numHashFeed (.pfloat .f64 0x4004000
     (by norm_num [Num.HashOK, Num.HashOKPre, FloatTy.mantBits, FloatTy.expBits])
     (n1 := 25) (d1 := 10) (n2 := 5 * 2 ^ 50) (d2 := 2 ^ 51) (by rfl) (by rfl)
     (by norm_num)
+
+-- ================================================================== non-vacuity of every hypothesis-carrying theorem
+
+/-- `spec_*`: 5/2 < 8/3 as `fin` values -/
+example : XVal.cmp (.fin 5 2) (.fin 8 3) = some .lt ∧ fracQ 5 2 < fracQ 8 3 :=
+  ⟨by decide, (spec_lt (by norm_num) (by norm_num)).1 (by decide)⟩
+
+/-- `enclosure_is_log2` / `filter_sound`: 5 is enclosed by (2, 3), 20 by (4, 5), hence 5 < 20 -/
+example : Encl (5 : ℝ) (.fin 2, .fin 3) ∧ Encl (20 : ℝ) (.fin 4, .fin 5) := by
+  constructor <;> (unfold Encl EB.le2 EB.ge2; constructor <;> norm_num)
+example (h1 : Encl (5 : ℝ) (.fin 2, .fin 3)) (h2 : Encl (20 : ℝ) (.fin 4, .fin 5)) : (5 : ℝ) < 20 :=
+  filter_sound h1 h2 (by decide)
+
+/-- the pairwise theorems instantiated with the proved-sound bit-length oracle -/
+example : some (floatReprCmpUbig Oracle.coarse false 10 25 (-1) 3)
+    = XVal.cmp (Num.fbig 10 25 (-1) 2).value (Num.ubig 3).value :=
+  float_cmp_ubig coarse_sound (by norm_num) 25 (-1) 3 2
+example : some (floatReprCmpIbig Oracle.coarse false 16 (-255) 7 (-(2 ^ 36)))
+    = XVal.cmp (Num.fbig 16 (-255) 7 2).value (Num.ibig (-(2 ^ 36))).value :=
+  float_cmp_ibig coarse_sound (by norm_num) (-255) 7 (-(2 ^ 36)) 2
+example : FWf 25 (-1) ∧ FWf 0 1 ∧ FWf 0 0 :=
+  ⟨fun h => absurd h (by norm_num), fun _ => Or.inr (Or.inl rfl), fun _ => Or.inl rfl⟩
+example : some (reprNumCmp Oracle.coarse 10 25 (-1) 2 5 (-1))
+    = XVal.cmp (Num.fbig 10 25 (-1) 2).value (Num.fbig 2 5 (-1) 3).value :=
+  float_cmp_float coarse_sound (by norm_num) (by norm_num) 25 (-1) 5 (-1) 2 3
+    (fun h => absurd h (by norm_num)) (fun h => absurd h (by norm_num))
+example : some (ratReprCmpUbig Oracle.coarse false 15 6 2) = XVal.cmp (.fin 15 6) (.fin 2 1) :=
+  ratio_cmp_ubig coarse_sound 15 (by norm_num) 2
+example : some (ratReprCmpFbig Oracle.coarse false 15 6 10 25 (-1)) = XVal.cmp (.fin 15 6) (Num.fbig 10 25 (-1) 2).value :=
+  ratio_cmp_float coarse_sound 15 (by norm_num) (by norm_num) 25 (-1) 2
+example : some (ratReprCmp false 15 6 5 2) = XVal.cmp (.fin 15 6) (.fin 5 2) :=
+  ratio_cmp_ratio 15 (by norm_num) 5 (by norm_num)
+
+/-- `num_ord_exact` on a non-reduced Relaxed against an FBig, and on the NaN case -/
+example : (some .eq : Option Ordering) = XVal.cmp (Num.relaxed 15 6).value (Num.fbig 10 25 (-1) 2).value :=
+  num_ord_exact coarse_sound (.relaxed 15 6) (.fbig 10 25 (-1) 2) (by norm_num [Num.WF])
+    ⟨by norm_num, fun h => absurd h (by norm_num)⟩ (by decide +kernel)
+example : (none : Option Ordering) = XVal.cmp (Num.ubig 7).value (Num.pfloat .f32 0x7fc00000).value :=
+  num_ord_exact coarse_sound (.ubig 7) (.pfloat .f32 0x7fc00000) trivial trivial (by decide +kernel)
+example : (true : Bool) = (XVal.cmp (Num.rbig 5 2).value (Num.relaxed 15 6).value == some .eq) :=
+  num_eq_exact coarse_sound (.rbig 5 2) (.relaxed 15 6) (by norm_num [Num.WF]) (by norm_num [Num.WF])
+    (by decide +kernel)
+
+/-- `abs_ord_exact` / `float_abs_cmp_same_base` / `ord_exact`: precision hypotheses are satisfiable -/
+example : PrecOK 10 (-1234) 4 ∧ PrecOK 10 99999 0 ∧ (Num.fbig 10 (-1234) (-2) 4).PrecOK :=
+  ⟨fun _ => by norm_num, fun h => absurd rfl h, fun _ => by norm_num⟩
+example : some Ordering.gt = XVal.absCmp (Num.fbig 10 (-1234) (-2) 4).value (Num.ibig 12).value :=
+  abs_ord_exact coarse_sound (.fbig 10 (-1234) (-2) 4) (.ibig 12)
+    ⟨by norm_num, fun h => absurd h (by norm_num)⟩ trivial (fun _ => by norm_num) trivial
+    (by decide +kernel)
+example : some (reprCmpSameBase Oracle.coarse true 10 (-1234) (-2) 99 0 (some (4, 2)))
+    = XVal.absCmp (Num.fbig 10 (-1234) (-2) 4).value (Num.fbig 10 99 0 2).value :=
+  float_abs_cmp_same_base coarse_sound (by norm_num) (-1234) (-2) 99 0 4 2 (fun _ => by norm_num)
+    (fun _ => by norm_num)
+
+/-- NumHash hypotheses: an FBig, a non-reduced Relaxed whose parts both carry the factor `M`, f32 -/
+example : (Num.fbig 16 (-255) 7 2).HashOK ∧ (Num.relaxed (3 * M127) (6 * M127)).HashOK ∧
+    (Num.pfloat .f32 0x3f000000).HashOK := by
+  refine ⟨⟨by norm_num, by norm_num [M127]⟩, by norm_num [Num.HashOK, M127], ?_⟩
+  norm_num [Num.HashOK, Num.HashOKPre, FloatTy.mantBits, FloatTy.expBits]
+example : numHashFeed (.relaxed (3 * M127) (6 * M127)) = numHashFeed (.pfloat .f32 0x3f000000) :=
+  num_hash_value (x := .relaxed (3 * M127) (6 * M127)) (y := .pfloat .f32 0x3f000000)
+    (by norm_num [Num.HashOK, M127]) (by norm_num [Num.HashOK, Num.HashOKPre, FloatTy.mantBits, FloatTy.expBits])
+    (n1 := 3 * M127) (d1 := 6 * M127) (n2 := 2 ^ 23) (d2 := 2 ^ 24) (by rfl) (by rfl)
+    (by norm_num [M127])
+example : ratHash 15 6 = ratHashPre 15 6 := rat_hash_eq_body (by norm_num [M127])
+
+/-- Mersenne model: a 254-bit product is reduced by two folds; an inverse is found -/
+example : Mersenne.reduceDouble ((M127 - 1) * (M127 - 1)) = 1 := by
+  rw [mersenne_reduce_double (by norm_num [M127])]; decide +kernel
+example : Mersenne.inv 3 = some (invMod 3) ∧ 3 * invMod 3 % M127 = 1 :=
+  mersenne_inv (by norm_num [M127]) (by norm_num)
+example : numHashFeedM (.relaxed (3 * M127) (6 * M127)) = numHashFeedM (.pfloat .f32 0x3f000000) :=
+  (num_hash_value_mirrored (x := .relaxed (3 * M127) (6 * M127)) (y := .pfloat .f32 0x3f000000)
+    (by norm_num [Num.HashOK, M127]) (by norm_num [Num.HashOK, Num.HashOKPre, FloatTy.mantBits, FloatTy.expBits])
+    (n1 := 3 * M127) (d1 := 6 * M127) (n2 := 2 ^ 23) (d2 := 2 ^ 24) (by rfl) (by rfl)
+    (by norm_num [M127])).1
+example : decode .f64 0xfff0000000000000 = .inf true := by decide +kernel
 
 -- ================================================================== AS-IS statements about the PRE-FIX code
 -- (`Model/Cross/Pre.lean`, `numHashFeedPre`: /repo before the C14 fix commits; nothing below is
